@@ -11,6 +11,10 @@
    Crash.view_of is what a restart serves from an image: whether the directory exists,
    whether it can be opened (meta.json), and every pointer of the decoded index together
    with the bytes it designates (domain.Open does no validation: floor(len/26) records).
+   Histories include I/O faults that do not kill the process (Crash.DWriteFail: a data-file
+   Write stores a proper prefix and returns an error — the tracked length still advances by
+   what was stored, as x/go/io/tracked.go does; Crash.DCommitTF: the index Truncate of a
+   commit returns an error, the pointer stays committed in memory only).
    Histories are arbitrary lists of operations; the arguments the layers above compute
    (commit end stamps, the byte offsets a delete resolves) are universally quantified.
 
